@@ -37,7 +37,7 @@ OPSET_VERS = [17, 18, 19, 20, 21]
 
 _GDT = {"f32": np.float32, "f64": np.float64, "i64": np.int64}
 
-UNARY = ["neg", "abs", "relu", "identity", "rmax"]
+UNARY = ["neg", "abs", "relu", "identity", "rmax", "split0"]
 BINARY = ["add", "sub", "mul"]
 BOOL1 = ["not"]
 BOOL2 = ["and", "or"]
@@ -85,6 +85,13 @@ def _apply_op(name, ver, ins):
         return op.and_(*ins)
     if name == "or":
         return op.or_(*ins)
+    if name == "split0":  # x + x[0] + x[1] through Split (13 -> 18: `num_outputs` became mandatory without `split`)
+        (x,) = ins
+        if ver == 17:
+            a, b = op.split(x, outputs_count=2)
+        else:
+            a, b = op.split(x, num_outputs=2)
+        return op.add(op.add(x, a), b)
     if name == "pos":  # scalar bool: is the first element positive?
         (x,) = ins
         first = op.gather(x, op.constant(value=np.array(0, np.int64)))
@@ -185,7 +192,7 @@ class Realiser:
         params = ", ".join(f"a{i}" for i in range(nin))
         ns = {"body": body}
         exec(f"def pyfun({params}):\n    return body({params})\n", ns)  # noqa: S102
-        f = to_function(fs["name"], fs["domain"])(ns["pyfun"])
+        f = to_function(fs["name"], fs["domain"], _version=fs.get("version", 0))(ns["pyfun"])
         self.fn_cache[fi] = f
         return f
 
@@ -360,6 +367,9 @@ def _np_op(name, ins):
         return np.logical_and(*ins)
     if name == "or":
         return np.logical_or(*ins)
+    if name == "split0":
+        x = np.asarray(ins[0])
+        return x + x[0:1] + x[1:2]
     if name == "pos":
         return np.array(bool(np.asarray(ins[0]).reshape(-1)[0] > 0))
     if name == "binarize":
@@ -933,7 +943,7 @@ class Gen:
                 types.append("f")
             elif r < 0.40:
                 if rng.random() < 0.5:
-                    names = UNARY if self.feat["rmax"] else [u for u in UNARY if u != "rmax"]
+                    names = UNARY if self.feat["rmax"] else [u for u in UNARY if u not in ("rmax", "split0")]
                     name = rng.choice(names)
                     stmts.append(["op", name, self.ver(), [self.pick(types, "f")]])
                 else:
@@ -1091,6 +1101,10 @@ class Gen:
             if others:
                 o = rng.choice(others)
                 self.funcs[idx]["name"], self.funcs[idx]["domain"] = o["name"], o["domain"]
+                if rng.random() < 0.6:  # "old and new revision of a helper": another declared version
+                    self.funcs[idx]["version"] = rng.choice([1, 2, 3])
+                    if rng.random() < 0.3:
+                        o["version"] = rng.choice([1, 2])
                 if rng.random() < 0.5:  # ... with the very same body: a legitimate merge
                     self.funcs[idx]["body"] = copy.deepcopy(o["body"])
         return idx
